@@ -321,6 +321,7 @@ type FnCFG struct {
 	domsets []map[int]bool // dominator sets per block
 	nodes   []cfgNode
 	body    *ast.BlockStmt
+	owner   map[ast.Node]int // syntax node -> index of the CFG node it belongs to (by identity)
 }
 
 type cfgNode struct {
@@ -424,6 +425,42 @@ func (c *FnCFG) computeDom() {
 
 // locate finds the CFG node (block, index) whose syntax contains n (innermost).
 func (c *FnCFG) locate(n ast.Node) (int, int, bool) {
+	// by identity first: virtually inlined code keeps the callee's positions (and substituted arguments the call site's), so
+	// position containment alone can land in another statement
+	if c.owner == nil {
+		c.owner = map[ast.Node]int{}
+		for i, cn := range c.nodes {
+			i := i
+			ast.Inspect(cn.n, func(x ast.Node) bool {
+				if x != nil {
+					if _, dup := c.owner[x]; !dup {
+						c.owner[x] = i
+					}
+				}
+				return true
+			})
+		}
+	}
+	if i, ok := c.owner[n]; ok {
+		return c.nodes[i].blk, c.nodes[i].idx, true
+	}
+	// a compound statement (loop, if, switch) is not a CFG node itself: the first CFG node among its descendants
+	{
+		first := -1
+		ast.Inspect(n, func(x ast.Node) bool {
+			if first >= 0 || x == nil {
+				return false
+			}
+			if i, ok := c.owner[x]; ok && c.nodes[i].n == x {
+				first = i
+				return false
+			}
+			return true
+		})
+		if first >= 0 {
+			return c.nodes[first].blk, c.nodes[first].idx, true
+		}
+	}
 	best := -1
 	var bestSize token.Pos
 	for i, cn := range c.nodes {
